@@ -5,8 +5,13 @@ Line protocol for C19 (see `harness/src/bin/c19.rs` for the three kinds of cases
 
 ops   `kind fld` then `lib <slot> <name> <path> <debugName> <debugPath> <id> <code> <arch>`
       `kind raw` then `obj <slot> <name> <path> <debugName> <debugPath> <breakpadId> <codeId> <arch> <dup>`
-      `kind e2e` then `file <i> gen|fix|copy …`, `map <i> <addr> <len> <pgoff>`, `hit <i> <rel> <function>`
-out   `ser <tag> name=… path=… debugName=… debugPath=… breakpadId=… codeId=… arch=…`
+                  or `objk <slot> k:<hex key text>=<null|bad|s:hex> …` (a library object with arbitrary key text)
+      `kind e2e` then `file <i> gen|fix|copy …`, `rec <i> m|h|hz <build id>` (the recording carries a build id for
+                 file `i`: in its MMAP2 records / as header entry with / without the stored length),
+                 `opt relcwd|presym|names <a> <b>`, `dbg <i> same|stale`, `map <i> <addr> <len> <pgoff>`,
+                 `hit <i> <rel> <function>`
+out   `ser <tag> name=… path=… debugName=… debugPath=… breakpadId=… codeId=… arch=…` (e2e: `… id=<typed id>`, the
+      written breakpadId as read by the real `debugid`)
       `rd <json|gz> <debugName>/<id> name=… path=… dpath=… code=… arch=…` | `rd <fmt> err`
       `gz same`, `known <fmt> <tag> found|missing`, `addr <fmt> <tag> <rel> same:<fn>|not-found|nofile`
 
@@ -58,15 +63,19 @@ def showCodeId : Option CodeId → String
 
 def sortLines (ls : List String) : List String := ls.mergeSort fun a b => !(b < a)
 
-def serLine (tag : String) (o : JObj) : String :=
-  o.foldl (fun acc kv => acc ++ " " ++ kv.1.toString ++ "=" ++ showJVal kv.2) ("ser " ++ tag)
+/-- the keys are printed from the model's *writer-side* literals (`Key.writerText`), the values as the reader
+will see them -/
+def serLineT (tag : String) (o : TObj) : String :=
+  o.foldl (fun acc kv => acc ++ " " ++ asciiStr kv.1 ++ "=" ++ showJVal kv.2) ("ser " ++ tag)
+
+def serLine (tag : String) (l : LibInfo) : String := serLineT tag (serializeLibText l)
 
 def rdLine (fmt : String) (kv : MapKey × RLib) : String :=
   let (k, v) := kv
   s!"rd {fmt} {strHex k.1}/{showDebugId k.2} name={showOpt v.name} path={showOpt v.path} dpath={showOpt v.debugPath} code={showCodeId v.codeId} arch={showOpt v.arch}"
 
-def rdLines (fmt : String) (d : PDoc) : List String :=
-  match preparse d with
+def rdLines (fmt : String) (d : TDoc) : List String :=
+  match preparseText d with
   | none => [s!"rd {fmt} err"]
   | some m => sortLines (m.map (rdLine fmt))
 
@@ -90,7 +99,7 @@ def modifyNth {α : Type} (dflt : α) (f : α → α) : Nat → List α → List
   | n + 1, [] => dflt :: modifyNth dflt f n []
   | n + 1, x :: xs => x :: modifyNth dflt f n xs
 
-def place : List Seg → JObj → PDoc → PDoc
+def place : List Seg → TObj → TDoc → TDoc
   | [], o, .mk l t p => .mk (l ++ [o]) t p
   | .t i :: _, o, .mk l t p => .mk l (modifyNth [] (· ++ [o]) i t) p
   | .p i :: rest, o, .mk l t p => .mk l t (modifyNth (.mk [] [] []) (place rest o) i p)
@@ -158,14 +167,14 @@ def parseFldLine (l : String) : Option FldLib :=
     pure ⟨slot, segs, ⟨name, dname, path, dpath, id, code.text, arch⟩, code⟩
   | _ => none
 
-def emptyDoc : PDoc := .mk [] [] []
+def emptyDoc : TDoc := .mk [] [] []
 
 def modelFld (ls : List String) : List String :=
   match ls.mapM parseFldLine with
   | none => ["bad-op"]
   | some libs =>
-    let sers := libs.map fun f => serLine f.slot (serializeLib f.lib)
-    let doc := libs.foldl (fun d f => place f.segs (serializeLib f.lib) d) emptyDoc
+    let sers := libs.map fun f => serLine f.slot f.lib
+    let doc := libs.foldl (fun d f => place f.segs (serializeLibText f.lib) d) emptyDoc
     sers ++ rdLines "json" doc ++ rdLines "gz" doc
 
 /-! ## reader-only cases -/
@@ -179,17 +188,34 @@ def parseRawField (s : String) : Option (Option JVal) :=
     | _ => none
 
 def keyOfString (s : String) : Option Key :=
-  [Key.name, .path, .debugName, .debugPath, .breakpadId, .codeId, .arch].find? fun k => k.toString = s
+  Key.all.find? fun k => asciiStr k.writerText = s
 
-def parseRawLine (l : String) : Option (List Seg × JObj) :=
+/-- `k:<hex key text>=<null|bad|s:hex>` -/
+def parseMember (w : String) : Option (Str × JVal) :=
+  match w.splitOn "=" with
+  | [k, v] => do
+    let kb ← match k.splitOn ":" with
+      | ["k", h] => hexStr? h
+      | _ => none
+    let v ← parseRawField v
+    let v ← v
+    pure (kb, v)
+  | _ => none
+
+def parseRawLine (l : String) : Option (List Seg × TObj) :=
   match words l with
   | ["obj", slot, name, path, dname, dpath, bp, code, arch, dup] => do
     let segs ← parseSlot slot
     let vals ← [name, path, dname, dpath, bp, code, arch].mapM parseRawField
     let keys := [Key.name, .path, .debugName, .debugPath, .breakpadId, .codeId, .arch]
-    let obj : JObj := (keys.zip vals).filterMap fun kv => kv.2.map fun v => (kv.1, v)
-    let extra ← if dup = "-" then some [] else (keyOfString dup).map fun k => [(k, JVal.null)]
+    let obj : TObj := (keys.zip vals).filterMap fun kv => kv.2.map fun v => (kv.1.writerText, v)
+    let extra ← if dup = "-" then some [] else (keyOfString dup).map fun k => [(k.writerText, JVal.null)]
     pure (segs, obj ++ extra)
+  | "objk" :: slot :: members => do
+    -- a library object whose keys are arbitrary text: the reader's own key matching decides
+    let segs ← parseSlot slot
+    let ms ← members.mapM parseMember
+    pure (segs, ms)
   | _ => none
 
 def modelRaw (ls : List String) : List String :=
@@ -204,8 +230,17 @@ def modelRaw (ls : List String) : List String :=
 structure E2eFile where
   name : Str          -- relative to the case directory
   present : Bool
-  debugId : DebugId
-  buildId : Option (List Nat)
+  /-- the `.note.gnu.build-id` of the file's bytes (also known for a file that is absent at import time) -/
+  fileBid : Option (List Nat)
+  /-- XOR hash of the first text page -/
+  textHash : List Nat
+  /-- the build id the recording carries in this file's MMAP2 records (`Mmap2FileId::BuildId`) -/
+  recM : Option (List Nat) := none
+  /-- … in the `HEADER_BUILD_ID` entry of this file's path, as the reader of the perf.data file sees it -/
+  recH : Option (List Nat) := none
+
+/-- converter.rs:775-786: the MMAP2 record's own build id, else the header entry of the path -/
+def E2eFile.recBid (f : E2eFile) : Option (List Nat) := f.recM.orElse fun _ => f.recH
 
 def dollarD : Str := [36, 68, 47] -- "$D/"
 
@@ -217,17 +252,37 @@ and the file is found as `$D/<base>`, next to the perf.data file. That path is w
 def E2eFile.path (f : E2eFile) : Str :=
   if f.present && f.name.take 6 == relocPrefix then dollarD ++ f.name.drop 6 else dollarD ++ f.name
 
-def E2eFile.lib (f : E2eFile) : LibInfo := convertLib f.path f.debugId f.buildId
+def E2eFile.mapped (f : E2eFile) : MappedFile :=
+  if f.present then .elf f.fileBid f.textHash else .absent
+
+/-- converter.rs `add_module_to_process`: `none` = the mapping is dropped (build id of the recording ≠ the file's) -/
+def E2eFile.lib? (f : E2eFile) : Option LibInfo := convertMapping f.path f.mapped f.recBid
+
+/-- specification side: the recording names a build id and the file at the path has another one (or none) -/
+def E2eFile.mismatch (f : E2eFile) : Bool :=
+  f.present && (match f.recBid with
+    | some e => f.fileBid != some e
+    | none => false)
 
 structure E2e where
   files : List E2eFile
   hits : List (Nat × Nat × String)
+  /-- `samply import --unstable-presymbolicate`: a `.syms.json` sidecar next to the profile -/
+  presym : Bool := false
 
 def parseBid (s : String) : Option (Option (List Nat)) :=
   if s = "none" then some none else
   match s.splitOn ":" with
   | ["b", h] => (hexStr? h).map some
   | _ => none
+
+/-- linux-perf-data `detect_build_id_len` (build_id_event.rs:8-18; third-party, semantics assumed and exercised):
+a header entry without the size bit loses its trailing all-zero 4-byte groups (of the 20 stored bytes) -/
+def detectLen (bs : List Nat) : List Nat :=
+  let padded := bs ++ List.replicate (20 - bs.length) 0
+  let chunks := [padded.take 4, (padded.drop 4).take 4, (padded.drop 8).take 4, (padded.drop 12).take 4, (padded.drop 16).take 4]
+  let kept := (chunks.reverse.dropWhile fun c => c.all (· == 0)).reverse
+  kept.flatten
 
 def parseE2eLine (e : E2e) (l : String) : Option E2e :=
   match words l with
@@ -237,25 +292,31 @@ def parseE2eLine (e : E2e) (l : String) : Option E2e :=
     let th ← match th.splitOn ":" with
       | ["t", h] => hexStr? h
       | _ => none
-    let present := present = "1"
-    -- converter.rs case 2: debug id from the build id, else from the hash of the first text page;
-    -- case 4 (file absent, no build id in the MMAP2 record): nil debug id, no code id
-    let id := if present then
-        (match bid with
-         | some b => DebugId.fromIdentifierLE b
-         | none => DebugId.fromIdentifierLE th)
-      else DebugId.nil
-    pure { e with files := e.files ++ [⟨name, present, id, if present then bid else none⟩] }
+    pure { e with files := e.files ++ [{ name := name, present := present = "1", fileBid := bid, textHash := th }] }
   | ["file", _, "fix", name, _present, _rel, bid] => do
     let name ← hexStr? name
     let bid ← parseBid bid
     let b ← bid
-    pure { e with files := e.files ++ [⟨name, true, DebugId.fromIdentifierLE b, some b⟩] }
+    pure { e with files := e.files ++ [{ name := name, present := true, fileBid := some b, textHash := [] }] }
   | ["file", _, "copy", name, _present, j] => do
     let name ← hexStr? name
     let j ← j.toNat?
     let f ← e.files[j]?
-    pure { e with files := e.files ++ [{ f with name := name }] }
+    pure { e with files := e.files ++ [{ f with name := name, recM := none, recH := none }] }
+  | ["rec", i, how, h] => do
+    -- the recording carries a build id for file `i`: in its MMAP2 records (`m`), in the header section with the
+    -- length stored (`h`) or without (`hz`)
+    let i ← i.toNat?
+    let b ← hexStr? h
+    let f ← e.files[i]?
+    let f' ← if how = "m" then some { f with recM := some b }
+      else if how = "h" then some { f with recH := some b }
+      else if how = "hz" then some { f with recH := some (detectLen b) }
+      else none
+    pure { e with files := e.files.set i f' }
+  | ["opt", "presym"] => some { e with presym := true }
+  | "opt" :: _ => some e     -- how samply is invoked (cwd, output names): no effect on the outcome
+  | ["dbg", _, _] => some e  -- a `<path>.dbg` companion on disk: no effect on the outcome
   | ["map", _, _, _, _] => some e
   | ["hit", i, rel, want] => do
     let i ← i.toNat?
@@ -264,7 +325,7 @@ def parseE2eLine (e : E2e) (l : String) : Option E2e :=
   | _ => none
 
 def parseE2e (ls : List String) : Option E2e :=
-  ls.foldlM parseE2eLine ⟨[], []⟩
+  ls.foldlM parseE2eLine ⟨[], [], false⟩
 
 def dedupNat (l : List Nat) : List Nat :=
   l.foldl (fun acc x => if acc.contains x then acc else acc ++ [x]) []
@@ -274,22 +335,54 @@ def isNilId : DebugId → Bool
   | .uuid bs age => bs.all (· == 0) && age == 0
   | .pdb20 ts age => ts == 0 && age == 0
 
+/-- the typed reading of a written `breakpadId` (printed by the harness with the real `debugid`) -/
+def idSuffix (l : LibInfo) : String :=
+  match DebugId.fromBreakpad l.debugId.toBreakpad with
+  | some d => " id=" ++ showDebugId d
+  | none => " id=bad"
+
 def modelE2e (ls : List String) : List String :=
   match parseE2e ls with
   | none => ["bad-op"]
   | some e =>
-    -- `libs[]` = the used libraries in the order of first use (one leaf frame per sample, in time order)
+    -- `libs[]` = the used libraries in the order of first use (one leaf frame per sample, in time order);
+    -- a dropped mapping has no library, its samples have no library frame
     let used := dedupNat (e.hits.map (·.1))
-    let usedFiles := used.filterMap fun i => e.files[i]?
-    let prof : Profile := ⟨usedFiles.map (·.lib), 1⟩
-    let sers := sortLines (usedFiles.map fun f => serLine (strHex f.path) (serializeLib f.lib))
-    let doc := serializeProfile prof
+    let usedFiles : List (E2eFile × LibInfo) := used.filterMap fun i =>
+      (e.files[i]?).bind fun f => f.lib?.map fun l => (f, l)
+    let prof : Profile := ⟨usedFiles.map (·.2), 1⟩
+    let sers := sortLines (usedFiles.map fun fl => serLine (strHex fl.1.path) fl.2 ++ idSuffix fl.2)
+    let doc := serializeProfileText prof
+    -- the sidecar of `--unstable-presymbolicate` (symbol_precog.rs:334-456, main.rs:240-249, helper.rs:337-346,
+    -- 867-880): one table per used library holding exactly the relative addresses the profile uses in it,
+    -- registered **by debug id only** — of several used libraries with one debug id the last listed one's table
+    -- survives and answers for all of them; an address it does not hold is not found. Known finding
+    -- C19-sidecar-collision; the model follows the code, the judge flags it.
+    let usedIdx : List (Nat × E2eFile × LibInfo) := used.filterMap fun i =>
+      (e.files[i]?).bind fun f => f.lib?.map fun l => (i, f, l)
+    let tableOf := fun (l : LibInfo) =>
+      match (usedIdx.filter fun x => x.2.1.present && x.2.2.debugId == l.debugId).getLast? with
+      | some (j, _, _) => some (e.hits.filterMap fun (h : Nat × Nat × String) => if h.1 == j then some h.2.1 else none)
+      | none => none
+    -- `presymbolicate` parses every used library's code id with `expect("bad codeid")` (symbol_precog.rs:355-358):
+    -- a recorded text `CodeId::from_str` rejects (ELF build ids of at most 4 bytes) aborts the import after the
+    -- profile was written. Known finding C19-presym-badcodeid.
+    let badCode := e.presym && usedFiles.any fun fl =>
+      match fl.2.codeId with
+      | some t => (CodeId.fromStr t).isNone
+      | none => false
+    if badCode then ["import json panic", "import gz panic"] else
     let perFmt := fun (fmt : String) =>
-      let known := usedFiles.map fun f =>
-        s!"known {fmt} {strHex f.path} {if f.present && !isNilId f.debugId then "found" else "missing"}"
+      let known := usedFiles.map fun (f, l) =>
+        s!"known {fmt} {strHex f.path} {if f.present && !isNilId l.debugId then "found" else "missing"}"
       let addrs := e.hits.filterMap fun (i, rel, want) =>
-        (e.files[i]?).map fun f =>
-          let verdict := if !f.present then "nofile" else if isNilId f.debugId then "not-found" else "same:" ++ want
+        (e.files[i]?).bind fun f => f.lib?.map fun l =>
+          let verdict := if !f.present then "nofile" else if isNilId l.debugId then "not-found"
+            else if e.presym then
+              (match tableOf l with
+               | some rels => if rels.contains rel then "same:" ++ want else "not-found"
+               | none => "same:" ++ want)
+            else "same:" ++ want
           s!"addr {fmt} {strHex f.path} {rel} {verdict}"
       sortLines (known ++ addrs.eraseDups)
     sers ++ ["gz same"] ++ rdLines "json" doc ++ rdLines "gz" doc ++ perFmt "json" ++ perFmt "gz"
@@ -394,7 +487,7 @@ def judgeFld (ops impl : List String) : Bool × String :=
 /-- a `ser` line of an end-to-end case: the recorded identity as written into the profile -/
 def wantOfSer (l : String) : Option (String × Want) :=
   match words l with
-  | ["ser", tag, name, path, dname, dpath, bp, code, arch] =>
+  | ["ser", tag, name, path, dname, dpath, bp, code, arch, tid] =>
     let strip := fun (pre s : String) => if s.startsWith pre then some (s.drop pre.length).toString else none
     do
       let n ← strip "name=" name
@@ -405,8 +498,10 @@ def wantOfSer (l : String) : Option (String × Want) :=
       let c ← strip "codeId=" code
       let a ← strip "arch=" arch
       let dnB ← (strip "s:" dn).bind hexStr?
-      let bpB ← (strip "s:" b).bind hexStr?
-      let id ← DebugId.fromBreakpad bpB
+      let _bpB ← (strip "s:" b).bind hexStr?
+      -- the typed reading of the written breakpadId comes from the harness (the real `debugid` crate), not from
+      -- the model's parser
+      let id ← (strip "id=" tid).bind parseId
       -- every library of these recordings is an ELF file: its recorded code id text denotes an ELF build id
       let (codeW, excl) ← (if c = "null" then some ("none", false) else do
         let t ← (strip "s:" c).bind hexStr?
@@ -422,7 +517,11 @@ def judgeE2e (ops impl : List String) : Bool × String :=
   | none => (false, "bad-op")
   | some e =>
     if let some l := impl.find? (fun l => l.startsWith "import " || l.startsWith "load " || l = "panic") then
-      (false, s!"samply failed: {l}") else
+      -- tag (not an excuse): presymbolication of a recording with an ELF build id of at most 4 bytes
+      let tag := if e.presym && l.endsWith " panic" && l.startsWith "import " &&
+          (e.files.any fun f => match f.fileBid with | some b => b.length ≤ 4 | none => false)
+        then "[presym-badcodeid] " else ""
+      (false, s!"{tag}samply failed: {l}") else
     if !impl.contains "gz same" then (false, "out.json and out.json.gz differ") else
     let serLines := impl.filter (·.startsWith "ser ")
     match serLines.mapM wantOfSer with
@@ -436,6 +535,9 @@ def judgeE2e (ops impl : List String) : Bool × String :=
         | none => some "bad hit"
         | some f =>
           if !f.present then none else
+          -- the recording names another build id than the file at the path has: the file is not "the binary
+          -- recorded"; if the profile does not list it there is nothing to find (if it does, it must be found)
+          if f.mismatch && !(tagged.any fun t => t.1 == strHex f.path) then none else
           ["json", "gz"].findSome? fun fmt =>
             let tag := strHex f.path
             if !impl.contains s!"known {fmt} {tag} found" then
@@ -446,17 +548,34 @@ def judgeE2e (ops impl : List String) : Bool × String :=
               | some l =>
                 let verdict := (words l).getLast?.getD ""
                 if verdict.startsWith "same:" && (want = "-" || want = "?" || verdict = "same:" ++ want) then none
-                else some s!"{fmt}: address {rel} of {asciiStr f.path}: {verdict} (function expected from the symbol table: {want})"
+                else
+                  -- tag (not an excuse): presymbolicated profile in which another mapped file has the same identity
+                  let twin := e.presym && verdict = "not-found" && (e.files.zipIdx.any fun (g, j) =>
+                    j != i && g.present && g.fileBid == f.fileBid && (f.fileBid.isSome || g.textHash == f.textHash))
+                  some s!"{if twin then "[sidecar-collision] " else ""}{fmt}: address {rel} of {asciiStr f.path}: {verdict} (function expected from the symbol table: {want})"
       -- (2) no other frame of the profile may be answered differently from the direct lookup
       let otherProblem := impl.find? fun l =>
         l.startsWith "addr " && (let v := (words l).getLast?.getD ""
           v.startsWith "differs" || v = "not-found") &&
         -- absent files have nothing to be found
         !(e.files.any fun f => !f.present && (words l)[2]? == some (strHex f.path))
-      match e2eProblem, otherProblem with
-      | some p, _ => (false, p)
-      | none, some l => (false, s!"a frame of the profile is answered differently from the direct lookup: {l}")
-      | none, none =>
+      -- (0) the identity a listed library carries is that of the file at its path (C19_convert_keeps_file_identity):
+      -- the written code id is the file's own build id, whatever the recording named
+      let identityProblem := e.files.findSome? fun f =>
+        if !f.present then none else
+        match tagged.find? (fun t => t.1 == strHex f.path) with
+        | none => none
+        | some (_, w) =>
+          let fileCode := showCodeId (f.fileBid.map CodeId.elf)
+          if f.mismatch then
+            some s!"library {asciiStr f.path} is listed although the recording names another build id than the file at that path has ({fileCode})"
+          else if w.code == fileCode then none
+          else some s!"library {asciiStr f.path} is listed with code id {w.code} but the file at that path has {fileCode}"
+      match identityProblem, e2eProblem, otherProblem with
+      | some p, _, _ => (false, p)
+      | none, some p, _ => (false, p)
+      | none, none, some l => (false, s!"a frame of the profile is answered differently from the direct lookup: {l}")
+      | none, none, none =>
         -- (3) field level: known under the recorded identity
         match checkKnownFields wants rds "json", checkKnownFields wants rds "gz" with
         | none, none => (true, "ok")
